@@ -88,6 +88,10 @@ func check(spec *ukit.Spec, res *ux.Result, only *replay) {
 	}
 	var natives []any
 	for i, raw := range raws {
+		if ux.Stop() {
+			res.Capped = true
+			break
+		}
 		ux.Progress(i)
 		want, denoted := ukit.Denote(spec, raw)
 		if tv, tn := ukit.Denote(tw, raw); tv == ukit.Yes {
@@ -95,7 +99,17 @@ func check(spec *ukit.Spec, res *ux.Result, only *replay) {
 			res.Nontrivial++
 		}
 		if want == ukit.Unknown {
+			// the reference does not say whether this input is to be accepted; but whatever Unserialize returns for it must
+			// itself meet the declared constraints (e.g. a map built from two raw keys that denote one key must still have
+			// the declared minimum size)
 			res.Skipped++
+			guard("Unserialize", i, raw, func() {
+				got, err := sch.Unserialize(ukit.DeepCopy(raw))
+				if err == nil && ukit.ValidNative(spec, got) == ukit.No {
+					fail(fmt.Sprintf("Unserialize returns a value that violates the declared constraints (%s)", kindOf(spec)),
+						fmt.Sprintf("Unserialize(%s) = %s", ukit.Show(raw), ukit.Show(got)), "Unserialize", i, raw)
+				}
+			})
 			continue
 		}
 		res.Evaluations++
